@@ -54,6 +54,14 @@ pub fn rsu_text(n: usize, day: i64, shares: Decimal, fmv: Decimal, sold: Decimal
     t
 }
 
+/// option exercise (same-day sale) confirmation with one grant, in the layout of the repository's unit tests
+pub fn eso_text(n: usize, day: i64, shares: Decimal, fmv: Decimal, sold: Decimal, sprice: Decimal, fee: Decimal) -> String {
+    format!(
+        "\n        Account Number 11223344\n        Tax Payment Method Sell-to-cover\n        Company Name (Symbol) Foo Inc.\n        (FOO)\n\n        Exercise Type: Same-Day Sale Registration\n\n        Shares Sold {}\n\n        Exercise Details\n\n        Grant 1\n        Grant Number 12{:02}\n        Exercise Market Value ${:.2}\n        Shares Exercised {}\n        Sale Price ${:.2}\n        Comission/Fee ${:.2}\n\n        Exercise Date:  {}\n\n        Provided by Foo Inc.\n        John Doe\n        Employee ID: 1111\n        STOCK PLAN EXERCISE CONFIRMATION\n        ",
+        sold.normalize(), n, fmv, shares.normalize(), sprice, fee, mdy(day, '/')
+    )
+}
+
 pub fn trade_text_post2023(sec: &str, td: i64, sd: i64, shares: Decimal, price: Decimal, commission: Decimal, fee: Decimal) -> String {
     let mut t = template("2024_with_manual_sells/pypdf/trade_conf_1.txt");
     t = sub(&t, r"\d+/\d+/\d+ \d+/\d+/\d+ \d+ \d+\.\d+", &format!("{} {} {} {}", mdy(td, '/'), mdy(sd, '/'), shares.normalize(), price_str(price)));
@@ -96,7 +104,11 @@ pub fn etrade_record(case: &Value, n: u64, scratch: &Path) -> Value {
         let fee = Decimal::new(417, 2);
         // file names decide the order in which the tool reads the confirmations
         let name = if order == 0 { format!("a_rsu_{}.txt", i) } else { format!("z_rsu_{}.txt", 9 - i) };
-        std::fs::write(dir.join(&name), rsu_text(i + 1, day, shares, fmv, sold, sprice, fee)).unwrap();
+        // every third scenario uses option-exercise confirmations instead of RSU releases (the sale price
+        // is printed with two decimals there)
+        let eso = n % 3 == 2 && (sprice * Decimal::from(100)).fract().is_zero();
+        let text = if eso { eso_text(i + 1, day, shares, fmv, sold, sprice, fee) } else { rsu_text(i + 1, day, shares, fmv, sold, sprice, fee) };
+        std::fs::write(dir.join(&name), text).unwrap();
         files.push(dir.join(&name).to_string_lossy().to_string());
         bens.push(json!({"sec": "FOO", "day": day, "shares": dj(&shares), "fmv": dj(&fmv), "sold": dj(&sold), "sprice": dj(&sprice), "fee": dj(&fee)}));
     }
@@ -129,7 +141,7 @@ pub fn etrade_record(case: &Value, n: u64, scratch: &Path) -> Value {
             out.push(json!({"sec": get("security"), "act": get("action"), "td": days_in_text(&get("trade date")).first().cloned().unwrap_or(0),
                             "sd": days_in_text(&get("settlement date")).first().cloned().unwrap_or(0), "shares": d(get("shares")), "price": d(get("amount/share")),
                             "comm": d(get("commission")), "cur": get("currency"),
-                            "kind": if memo.contains("(manual trade)") { "manual" } else if memo.contains("sell-to-cover") { "cover" } else { "buy" }}));
+                            "kind": if memo.contains("(manual trade)") { "manual" } else if get("action") == "Sell" { "cover" } else { "buy" }}));
         }
         // accepted by acb: parse the printed CSV (USD rows need a rate: add the column as --usd-exchange-rate would)
         let mut rd2 = acb::util::rw::DescribedReader::from_string("out.csv".into(), stdout.clone());
